@@ -89,12 +89,12 @@ theorem solo_equiv (t : Nat) (sched : List (Access × Nat)) (mem : Loc → Nat) 
         · rfl
       · simp only [hw]; rfl
 
-/-- read-only parameter positions through which the address of a package variable is passed -/
-def readOnlyParams : List String := ["CMove#2 .identity", "CMove#1 .identity", "set#0 .identity", "Equals#0 .identity"]
+/-- **no mutable global state**: no statement of the three packages assigns to a package-level variable, and wherever the
+address of (part of) one is passed to a function, the may-write analysis of the callee shows that parameter is only read -/
+theorem no_global_writes : Facts.globalWrites = [] ∧ Facts.globalAddrArgsWritten = [] := by decide
 
-/-- **no mutable global state**: no statement of the three packages assigns to a package-level variable, and its
-address only ever reaches parameters the cell analysis shows untouched -/
-theorem no_global_writes : Facts.globalWrites = [] ∧ ∀ a ∈ Facts.globalAddrArgs, a ∈ readOnlyParams := by decide
+/-- (the places where such an address is passed at all; informative) -/
+theorem global_addresses_passed : Facts.globalAddrArgs.length ≤ 8 := by decide
 
 /-- no API function (nor any callee) has a statement that can write through a caller-supplied byte slice
 (static write analysis of `go2lean`, re-derived on every run; see C15) -/
